@@ -31,9 +31,9 @@ func (c03) Assumptions() []string {
 
 func c03Corpus(env run.Env) corpus {
 	if env.Thorough {
-		return newCorpus("C03", wfDomain, 120, 1500000)
+		return newCorpus("C03", wfDomain, 120, 1500000).withGiant(6)
 	}
-	return newCorpus("C03", wfDomain, 16, 16000)
+	return newCorpus("C03", wfDomain, 16, 16000).withGiant(2)
 }
 
 func (c03) Phases(env run.Env) []run.Phase {
@@ -84,6 +84,14 @@ func (c03) Run(c *run.Ctx, phase, idx int) {
 	r := rng(c.Env, "C03v", phase, idx)
 	t := int(a.Type)
 	try := func(variant string, v *ref.Packet) { c03Try(c, v, variant, part) }
+	if part == "giant" {
+		release := c.HugeGate(int64(len(a.Payload)))
+		defer release()
+		c.SetHeapBudget(mon.LiveHeap() + 24*int64(len(a.Payload)) + 1<<30)
+		defer c.SetHeapBudget(0)
+		c.Allow(int64(len(a.Payload)) * 2000)
+		c.Count("giant-remaining-length", fmt.Sprint(len(a.Payload)+4), 1)
+	}
 	if r.Chance(1, 4) {
 		noise(r)
 		c.Count("history", "noise-before-decode", 1)
